@@ -26,6 +26,14 @@ EXPR_SLOTS = [
     ("len", "len(%s)"), ("in-item", "(%s) in y"), ("in-list", "x in (%s)"), ("make-len", "make([]int64, %s)"), ("make-cap", "make([]int64, 1, %s)"), ("make-type", "make(type T, %s)"),
     ("send-value", "c <- (%s)"), ("send-chan", "(%s) <- 1"), ("recv", "<-(%s)"), ("chan-stmt", "v, ok = <-(%s)"), ("let-map-item", "v, ok = m[%s]"), ("import", "import(%s)"),
     ("addr", "&(%s)"), ("deref", "*(%s)"), ("opassign-r", "x += (%s)"), ("func-body", "func() { return %s }"),
+    # lists whose lengths differ from their counterpart, later positions of longer lists, optional children left out
+    ("lets-surplus-rhs", "z, w = 1, 2, %s"), ("lets-surplus-rhs2", "z = 1, %s"), ("lets-short-rhs", "z, w, q = %s"), ("lets-lhs-item3", "z, w, q[%s] = 1, 2, 3"),
+    ("var-rhs3", "var z, w, q = 1, 2, %s"), ("return3", "return 1, 2, %s"), ("call-arg3", "f(1, 2, %s)"), ("array-elem3", "[1, 2, %s]"), ("map-value2", "{\"a\": 1, \"b\": %s}"),
+    ("map-key2", "{\"a\": 1, %s: 2}"), ("switch-case3", "switch x { case 1, 2, %s: y }"), ("switch-2nd-case", "switch x { case 1: y  case %s: z }"),
+    ("typed-array-elem", "[]int64{1, %s}"), ("typed-map-value", "map[string]int64{\"a\": %s}"), ("typed-map-key", "map[string]int64{%s: 1}"),
+    ("slice-end-only", "x[:%s]"), ("slice-begin-only", "x[%s:]"), ("slice3-no-begin-cap", "x[:1:%s]"), ("slice3-no-begin-end", "x[:%s:2]"),
+    ("slice-base-open", "(%s)[1:]"), ("slice-base-open2", "(%s)[:1]"), ("make-chan-size", "make(chan int64, %s)"), ("elseif-cond2", "if x { } else if y { } else if %s { }"),
+    ("defer-arg2", "defer f(1, %s)"), ("go-arg2", "go f(1, %s)"), ("anon-call-arg2", "x.y(1, %s)"), ("delete-item-key", "delete(%s, 1)"), ("let-map-item-base", "v, ok = (%s)[1]"),
 ]
 
 STMT_FILLERS = [
@@ -43,6 +51,8 @@ STMT_SLOTS = [
     ("try-body", "try {\n%s\n} catch e { }"), ("catch-body", "try { } catch e {\n%s\n}"), ("finally-body", "try { } catch e { } finally {\n%s\n}"),
     ("switch-case", "switch c {\ncase 1:\n%s\n}"), ("switch-default", "switch c {\ncase 1:\nx\ndefault:\n%s\n}"), ("module-body", "module mm {\n%s\n}"),
     ("func-body", "func ff() {\n%s\n}"), ("anon-func-body", "h = func() {\n%s\n}"), ("cfor-init", None),
+    ("elseif2-then", "if c { } else if d { } else if e {\n%s\n}"), ("else-after-elseif", "if c { } else if d { } else {\n%s\n}"), ("switch-2nd-case", "switch c {\ncase 1:\nx\ncase 2:\n%s\n}"),
+    ("second-stmt", "q = 0\nq = 1\n%s"), ("try-body-nocatchvar", "try {\n%s\n} catch { }"), ("finally-only-after", "try { x } catch e { y } finally {\nq\n%s\n}"),
 ]
 
 
